@@ -76,6 +76,21 @@ let show_suite (s : suite) : ostring =
     (match s.s_keylen with Some k -> string_of_int (int_of_z k) | None -> "None/0")
     (hash_name s.s_mac) (int_of_z s.s_tag)
 
+let fclass_name = function
+  | CPadding -> "Padding" | CPing -> "Ping" | CAck -> "Ack" | CResetStream -> "ResetStream" | CStopSending -> "StopSending"
+  | CCrypto -> "Crypto" | CNewToken -> "NewToken" | CStream -> "Stream" | CMaxData -> "MaxData" | CMaxStreamData -> "MaxStreamData"
+  | CMaxStreams -> "MaxStreams" | CDataBlocked -> "DataBlocked" | CStreamDataBlocked -> "StreamDataBlocked"
+  | CStreamsBlocked -> "StreamsBlocked" | CNewConnectionId -> "NewConnectionId" | CRetireConnectionId -> "RetireConnectionId"
+  | CPathChallenge -> "PathChallenge" | CPathResponse -> "PathResponse" | CConnectionClose -> "ConnectionClose"
+  | CDatagram -> "Datagram" | CHandshakeDone -> "HandshakeDone" | CGeneric -> "Generic"
+let show_frame (f : frame) : ostring =
+  let ints = match f.f_cls with CDatagram -> [] | _ -> f.f_ints in
+  Printf.sprintf "%s|%s|%s|%s|%s" (fclass_name f.f_cls)
+    (match f.f_cls with CGeneric -> "-" | _ -> hex_of_z f.f_type) (hex_of_z f.f_len)
+    (String.concat "," (List.map hex_of_z ints)) (String.concat "," (List.map hex_of_bytes_strict f.f_datas))
+let show_result (show : 'a -> ostring) (r : 'a result) : ostring =
+  match r with Ok a -> "Ok " ^ show a | Exn e -> "Exn " ^ exn_name e
+
 (* ---------- dispatch ---------- *)
 let handle (cmd : ostring) (args : ostring list) : ostring =
   match cmd, args with
@@ -89,6 +104,9 @@ let handle (cmd : ostring) (args : ostring list) : ostring =
       | Exn e -> "Exn " ^ exn_name e)
   | "rfcpn", [l; t; k] -> hex_of_z (x_rfc_pn (z_of_hex l) (z_of_hex t) (z_of_hex k))
   | "nonce", [iv; pn] -> hex_of_bytes_strict (x_quic_nonce (bytes_of_hex iv) (bytes_of_hex pn))
+  | "frames", [p] -> show_result (fun fs -> String.concat ";" (List.map show_frame fs)) (x_parse_frames (bytes_of_hex p))
+  | "varint", [b] -> show_result hex_of_z (x_varint (bytes_of_hex b))
+  | "varintlen", [b] -> show_result hex_of_z (x_varint_len (bytes_of_hex b))
   | "ping", _ -> "pong"
   | _ -> "ERR unknown command " ^ cmd
 
